@@ -433,14 +433,19 @@ class SimpleJSONRPCDispatcher(SimpleXMLRPCDispatcher, object):
                     return func(*params)
                 else:
                     return func(**params)
-            except TypeError as ex:
-                # Maybe the parameters are wrong
-                fault = Fault(
-                    -32602, "Invalid parameters: {0}".format(ex), config=config
-                )
-                _logger.warning("Invalid call parameters: %s", fault)
-                return fault
             except:
+                ex, trace = sys.exc_info()[1:]
+                if isinstance(ex, TypeError) and trace.tb_next is None:
+                    # Raised by the call itself, not from inside the method:
+                    # the parameters are wrong
+                    fault = Fault(
+                        -32602,
+                        "Invalid parameters: {0}".format(ex),
+                        config=config,
+                    )
+                    _logger.warning("Invalid call parameters: %s", fault)
+                    return fault
+
                 # Method exception
                 err_lines = traceback.format_exception(*sys.exc_info())
                 trace_string = "{0} | {1}".format(
